@@ -6,6 +6,8 @@
 import RdfModel.Model.JsonLdContextIri
 import RdfModel.Proofs.C10CtxPanic
 import RdfModel.Proofs.C10CtxPrefix
+import RdfModel.Proofs.C10CtxRefine
+import RdfModel.Proofs.C10CtxFuel
 import RdfModel.Proofs.C12WrapPanic
 namespace RdfModel.C10Ctx
 open RdfModel RdfModel.JL RdfModel.JLC
@@ -72,6 +74,72 @@ example : ctd (P := Unit) ⟨fun _ => .err, fun _ => false, fun _ _ => none, fun
     { ctx := Context.initial none, defined := [] } (asc "t") none false false = .panic := by
   simp [ctd, ctdBody, mget, getKey, asc]
 
+/-! ## C05: termination -/
+
+/-- What makes the mutual recursion IRI Expansion ↔ Create Term Definition terminate, as coded: a term
+    whose definition is in progress (`defined[term] = false`) is not entered again — the call returns
+    `cyclic IRI mapping` at once, leaving the state as it is … -/
+theorem ctd_cyclic {P : Type} (ops : IriOps P) (mode : Mode) (fuel : Nat) (loc : List (Str × Json)) (st : St P)
+    (term : Str) (base : Option Str) (prot ov : Bool) (h : mget term st.defined = some false) :
+    ctd ops mode (fuel + 1) loc st term base prot ov = .err .cyclicIRIMapping st := by
+  simp [ctd, ctdBody, h]
+
+/-- … and a term already defined by this context definition is not entered again either -/
+theorem ctd_defined {P : Type} (ops : IriOps P) (mode : Mode) (fuel : Nat) (loc : List (Str × Json)) (st : St P)
+    (term : Str) (base : Option Str) (prot ov : Bool) (h : mget term st.defined = some true) :
+    ctd ops mode (fuel + 1) loc st term base prot ov = .ok () st := by
+  simp [ctd, ctdBody, h]
+
+example : mget (asc "t") ([(asc "t", false)] : List (Str × Bool)) = some false := by decide
+
+/-- IRI Expansion without a local context (every query of the T3 battery; every expansion the document
+    expansion makes once a context is in place) makes no nested call: one unit of fuel is enough -/
+theorem iri_expand_no_fuel {P : Type} (ops : IriOps P) (mode : Mode) (c : Context P) (v : Json) (docRel vocab : Bool) :
+    iriExpand ops mode c v docRel vocab ≠ .fuel := by
+  unfold iriExpand
+  split
+  · simp
+  · rename_i s
+    have h := iriExpandBody_noFuel ops (fun st _ => .ok () st) { ctx := c, defined := [] } s docRel vocab
+    simp only [iriExpandStr]
+    split <;> simp_all [Res.NoFuel]
+  · simp
+
+/-- TERMINATION. The model is total by construction (structural recursion on the fuel; one unit per Go
+    call of `.Call()`); running out of fuel is the explicit outcome `fuel`. `fuelFor loc = 3·|loc| + 4` units
+    (|loc| = number of JSON values and object members of the local context) are enough, for every
+    parsed-IRI implementation, mode, active context, base and flags: Context Processing never answers
+    `fuel`. The proof (Proofs/C10CtxFuel.lean) is the termination argument of the Go code: the set of terms
+    `defined` knows only grows; every Create Term Definition call that goes past step 1 adds its term (a
+    member name of the context definition) to it, and returns at once for a term already there — with the
+    `cyclic IRI mapping` error while its definition is in progress (`ctd_cyclic`); IRI Expansion calls Create
+    Term Definition for member names only; so the nesting of the two is at most twice the number of
+    members not yet in `defined`; a scoped context is a proper sub-value of the definition. -/
+theorem ctx_fuel_sufficient {P : Type} (ops : IriOps P) (mode : Mode) (n : Nat) (active : Context P) (loc : Json)
+    (base : Option Str) (overrideProtected propagate : Bool) (hn : fuelFor loc ≤ n) :
+    processCtx ops mode n active loc base overrideProtected propagate ≠ .fuel := by
+  have h := (all_fuel ops mode n).2.2.2 active loc base overrideProtected propagate hn
+  intro hf
+  rw [hf] at h
+  exact h
+
+example : fuelFor (.obj [(asc "t", .str (asc "http://e/"))]) ≤ 13 := by decide
+
+/-- Context Processing as the driver runs it ends in a context, a JSON-LD error code, or `unmodelled`
+    (remote context, `@import`, an IRI outside the net/url model): never a panic, never out of fuel -/
+theorem ctx_total (mode : Mode) (active : Context PIRI.ParsedIRI) (loc : Json) (base : Option Str) (o p : Bool) :
+    (∃ c, processCtx piriOps mode (fuelFor loc) active loc base o p = .ok c) ∨
+    (∃ e, processCtx piriOps mode (fuelFor loc) active loc base o p = .err e) ∨
+    processCtx piriOps mode (fuelFor loc) active loc base o p = .unmodelled := by
+  have h1 := ctx_no_panic_piri mode (fuelFor loc) active loc base o p
+  have h2 := ctx_fuel_sufficient piriOps mode (fuelFor loc) active loc base o p (Nat.le_refl _)
+  cases h : processCtx piriOps mode (fuelFor loc) active loc base o p with
+  | ok c => exact Or.inl ⟨c, rfl⟩
+  | err e => exact Or.inr (Or.inl ⟨e, rfl⟩)
+  | unmodelled => exact Or.inr (Or.inr rfl)
+  | panic => exact absurd h h1
+  | fuel => exact absurd h h2
+
 /-! ## the prefix flag -/
 
 /-- Step 14.2.5 as coded: the prefix flag of a definition that has an `@id` string is set exactly when the
@@ -92,6 +160,65 @@ theorem prefix_entry_spec (mode : Mode) (term : Str) (vo : List (Str × Json)) (
     (getKey kPrefix vo = some (.bool p) ∧ mode ≠ .v10 ∧ term.contains cColon = false ∧ term.contains cSlash = false ∧
       (p = true → ∀ k, e ≠ .kw k)) :=
   prefixStep_ok mode term vo e p0 p h
+
+example : prefixStep .v11 (asc "p") [(kPrefix, .bool true)] (.iri (asc "http://e/x")) false = .ok true := rfl
+example : prefixStep .v11 (asc "p") [] (.iri (asc "http://e/x#")) true = .ok true := rfl
+
+/-! ## C10: the fragment semantics is what the context machinery computes -/
+
+/-- IRI expansion (no local context: the call expansion and value expansion make for property names,
+    `@id`, `@type` values and `@vocab`) of the model equals `JL.expandIri` of the fragment semantics
+    Spec/JsonLdFragment.lean, for every string, both flags and every pair of corresponding contexts
+    (`Corr`: same terms with IRI mappings that are IRIs and equal prefix flags, same vocabulary mapping,
+    and the base resolves the value like RFC 3986 §5.2 — a hypothesis about the parsed-IRI parameter,
+    tied for the instance by C12/C12W). A blank node identifier is `_:label` in the model, `label` in the
+    fragment (`toSpec`). -/
+theorem iri_expand_refines_fragment {P : Type} (ops : IriOps P) (mode : Mode) (c : Context P) (sc : JL.Ctx) (v : Str)
+    (docRel vocab : Bool) (hc : Corr ops c.core sc v) :
+    ∃ e, iriExpand ops mode c (.str v) docRel vocab = .ok (.s e) ∧ toSpec e = JL.expandIri sc vocab docRel v := by
+  obtain ⟨e, h1, h2⟩ := iriExpandBody_refines ops (fun st _ => .ok () st) { ctx := c, defined := [] } sc v docRel vocab hc
+  refine ⟨e, ?_, h2⟩
+  simp only [iriExpand, iriExpandStr]
+  rw [h1]
+
+/-- a context with a prefix, a plain term and a vocabulary corresponds to its fragment counterpart -/
+example : Corr (P := Unit) ⟨fun _ => .err, fun _ => false, fun _ _ => none, fun _ => [], fun _ => .no⟩
+    { terms := [(asc "ex", { (default : JLC.TermDef) with iri := .iri (asc "http://e/"), pfx := true })],
+      base := none, baseValue := none, origBase := none, vocab := some (.iri (asc "http://v/")), vocabValue := none,
+      lang := none, dir := none }
+    { mode11 := true, docBase := none, base := none, vocab := some (asc "http://v/"), lang := none,
+      terms := [(asc "ex", { iri := asc "http://e/", pfx := true, typ := .none, cont := .none, lang := none })] }
+    (asc "ex:a") where
+  terms := by
+    intro k
+    by_cases hk : k = asc "ex"
+    · subst hk; simp [mget, JL.Ctx.term?, List.lookup, asc]
+    · have : (k == asc "ex") = false := by simpa using hk
+      simp [mget, JL.Ctx.term?, List.lookup, this]
+  vocab := rfl
+  baseNone := fun _ => rfl
+  baseSome := fun b hb => by simp at hb
+
+/-- `ctx_refines_fragment_partial`, the part that is PROVED: IRI expansion on corresponding tables. The
+    other half of the intended statement — for a context object `ms` of the fragment,
+    `JL.processCtxObj sc ms = some sc'` implies that `processCtx` succeeds with a context corresponding
+    to `sc'` — is NOT proved; it is checked by the driver op `ctx.frag` (`fragDiff`) on every first local
+    context of every history of the T3 run (full statement below). Known deviation found that way:
+    the term ":" (finding C10C-single-colon-term). -/
+theorem ctx_refines_fragment_partial {P : Type} (ops : IriOps P) (mode : Mode) (c : Context P) (sc : JL.Ctx) (v : Str)
+    (docRel vocab : Bool) (hc : Corr ops c.core sc v) :
+    ∃ e, iriExpand ops mode c (.str v) docRel vocab = .ok (.s e) ∧ toSpec e = JL.expandIri sc vocab docRel v :=
+  iri_expand_refines_fragment ops mode c sc v docRel vocab hc
+
+/-- the full statement (not proved; refuted as it stands by the term ":" in json-ld-1.1, see the finding) -/
+def ctx_refines_fragment : Prop :=
+  ∀ (mode11 : Bool) (base : Option Str) (ms : List (Str × Json)) (sc' : JL.Ctx),
+    JL.processCtxObj (JL.Ctx.initial mode11 base) ms = some sc' →
+    ∃ c', processCtx piriOps (if mode11 then .v11 else .v10) (fuelFor (.obj ms))
+        (Context.initial ((match base with
+          | some b => (match PIRI.parseIRI b with | .ok p => some p | .error _ => none)
+          | none => none))) (.obj ms) none false true = .ok c' ∧
+      TermsCorr c'.core.terms sc' ∧ c'.core.vocab = sc'.vocab.map SIri.iri ∧ c'.core.lang = sc'.lang
 
 /-! ## clone -/
 
